@@ -118,7 +118,7 @@ def ref_run(case):
     rule = case["rule"].lower()
     ev = set()
     if not jobs:
-        return {"schedule": {}, "objective": 0, "events": ev, "accepts": 0}
+        return {"schedule": {}, "objective": 0, "events": ev, "accepts": 0, "iterations": 0, "evaluations": 0}
     if any((not job) or any(m < 0 or d < 0 for m, d in job) for job in jobs) or rule not in RULES:
         return {"error": "ValueError", "events": ev, "accepts": 0}
     nm = max(m for job in jobs for m, _ in job) + 1
@@ -144,11 +144,12 @@ def ref_run(case):
     sched, _ = _kernel(jobs, nm, pick_dispatch, ev)
     mk = max((e for _, e in sched.values()), default=0)
     best, best_mk = sched, mk
-    accepts = 0
+    accepts, its, evals = 0, 0, 1
     if case["local_search"]:
         no_imp = 0
         all_ops = [(j, k) for j, job in enumerate(jobs) for k in range(len(job))]
         for it in range(1, case["max_iter"] + 1):
+            its = it
             machine = rng.randrange(nm)
             ops = [o for o in all_ops if jobs[o[0]][o[1]][0] == machine]
             if len(ops) < 2:
@@ -177,6 +178,7 @@ def ref_run(case):
 
                 new, local = _kernel(jobs, nm, pick_rebuild, ev, target=machine, in_rebuild=True)
                 new_mk = max(e for _, e in new.values())
+                evals += 1
                 if new_mk < mk:
                     sched, mk, improved = new, new_mk, True
                     accepts += 1
@@ -204,7 +206,7 @@ def ref_run(case):
             if no_imp >= 100:
                 ev.add("noimp_exit")
                 break
-    return {"schedule": best, "objective": best_mk, "events": ev, "accepts": accepts}
+    return {"schedule": best, "objective": best_mk, "events": ev, "accepts": accepts, "iterations": its, "evaluations": evals}
 
 
 def score(res, target):
@@ -357,7 +359,7 @@ _JUDGE = None
 def _eval_global(case):
     res = ref_run(case)
     verdict = _JUDGE(case, res) if _JUDGE else None
-    return sorted(res["events"]), verdict
+    return sorted(res["events"]), verdict, res.get("accepts", 0)
 
 
 def event_search(rng, evals, judge=None, seeds=(), batch=448, workers=14, targets=EVENTS):
@@ -376,7 +378,7 @@ def event_search(rng, evals, judge=None, seeds=(), batch=448, workers=14, target
         start = mutate(rng, rng.choice(seeds)) if seeds and rng.random() < 0.4 else rng.choice(FAMILIES)(rng)
         climbers.append([t, start, -1.0, 0])
     found, verdicts, seen_sets, seen_ev = [], [], set(), {}
-    spent = 0
+    spent, max_acc = 0, 0
     pool = mp.get_context("fork").Pool(workers) if workers > 1 else None
     try:
         while spent < evals:
@@ -392,8 +394,9 @@ def event_search(rng, evals, judge=None, seeds=(), batch=448, workers=14, target
                 cands.append((ci % len(climbers), cand))
             outs = pool.map(_eval_global, [c for _, c in cands], chunksize=8) if pool else [_eval_global(c) for _, c in cands]
             spent += len(cands)
-            for (ci, cand), (evs, verdict) in zip(cands, outs):
+            for (ci, cand), (evs, verdict, acc) in zip(cands, outs):
                 evs = set(evs)
+                max_acc = max(max_acc, acc)
                 if verdict is not None:
                     verdicts.append((cand, verdict))
                 cl = climbers[ci]
@@ -424,4 +427,4 @@ def event_search(rng, evals, judge=None, seeds=(), batch=448, workers=14, target
         if pool:
             pool.terminate()
             pool.join()
-    return found, verdicts, {"spent": spent, "first_witness": seen_ev, "distinct_event_sets": len(seen_sets)}
+    return found, verdicts, {"spent": spent, "first_witness": seen_ev, "distinct_event_sets": len(seen_sets), "max_accepts": max_acc}
